@@ -113,7 +113,8 @@ def main():
                 if rc1 != 0:
                     os.remove(os.path.join(WT, dest_rel))
                     with_pass = passing(touched)
-                    lost = sorted(base_pass - with_pass)
+                    flaky = set(json.load(open("/root/.vp/BASELINE.json")).get("flaky", []))
+                    lost = sorted((base_pass - with_pass) - flaky)
                     log["existing_tests"] = {"packages": touched, "passing_without": len(base_pass), "passing_with": len(with_pass), "lost": lost[:10]}
                     verdict = "confirmed" if not lost else "existing tests break: " + ", ".join(lost[:3])
                 else:
@@ -148,6 +149,12 @@ def main():
     finally:
         sh(f"git -C /repo worktree remove --force {WT}")
         sh("rm -f /var/tmp/verif-seed.test")
+    try:
+        old = json.load(open("/verif/seeded/confirmation_results.json"))
+    except Exception:
+        old = {}
+    old.update(results)
+    results = old
     json.dump(results, open("/verif/seeded/confirmation_results.json", "w"), indent=1)
     print(json.dumps(results, indent=1))
 
